@@ -224,10 +224,12 @@ func (g *gen) genStatement(typ types.Type, this, that string) error {
 		p.In()
 		thatkey := thiskey
 		if !canCopy(keyType) {
-			if err := g.genField(keyType, thatkey, thiskey); err != nil {
+			// the key itself holds pointers: copy it into a key of its own
+			thatkey = prepend(that, "key")
+			p.P("var %s %s", thatkey, g.TypeString(keyType))
+			if err := g.genField(keyType, thiskey, thatkey); err != nil {
 				return err
 			}
-			thatkey = prepend(that, "key")
 		}
 		if nullable(elmType) {
 			p.P("if %s == nil {", thisvalue)
